@@ -88,6 +88,10 @@ def std_summaries(program: Program) -> Dict[str, Callable]:
     """The process-wide config singleton: one JASMConfig object per run (= per process) whose `global_info` is an
     ordinary dict; get_info / _set_info are the repository's own methods, interpreted, with an event recorded."""
     cfg_cls = program.find_class("JASMConfig")
+    if cfg_cls is not None and (cfg_cls.find_method("global_info") is not None or "global_info" in getattr(cfg_cls, "setters", {})):
+        # the model below is the class as written: ONE dict per process, created by __new__. A store behind a property
+        # (per thread, per context, lazily rebuilt ...) is not that
+        raise AnalysisError("JASMConfig.global_info is not a plain attribute any more: the singleton model does not apply")
 
     def the_config(I: Interp, call=None) -> Obj:
         """the singleton. `JASMConfig()` is __new__ (the one object) followed by __init__ - on EVERY call, when the class
